@@ -8,6 +8,7 @@
 #include <boost/multiprecision/cpp_int.hpp>
 #include <parmcb/config.hpp>
 #include <parmcb/fp.hpp>
+#include <parmcb/spvecfp.hpp>
 
 typedef boost::multiprecision::cpp_int BigInt;
 enum { C_EVAL = 0, C_NONTRIV };
@@ -67,9 +68,59 @@ static void prime_case(vr::Runner &R, const char *tn, long p0, bool verbose = fa
     if (got != want) R.violation({"primes::is_prime", "is-prime", cs, std::string("returned ") + (got ? "true" : "false") + " for a " + (want ? "prime" : "composite")});
 }
 
+
+// ---- SpVecFP over a LARGE prime with built-in coordinate types (the BFS of spvec_bfs.cpp covers p <= 7 only) ----
+// p is the largest prime whose (p-1)^2 still fits the type (a single product must be representable; that is all the class
+// can need). Vectors over 3 coordinates with values from {0, 1, 2, (p-1)/2, p-2, p-1} are built through public operations
+// (unit assignment, scalar multiplication, +=); for every ordered pair a+b, a+=b, a*b and a*s for s in the value alphabet
+// plus {p, p+1, -1} are compared with a dense model computed in cpp_int.
+template<class T> static std::string vecfp_str(const parmcb::SpVecFP<T> &v) { std::string s = "{"; for (auto it = v.begin(); it != v.end(); ++it) s += (s.size() > 1 ? "," : "") + std::to_string(boost::get<0>(*it)) + ":" + std::to_string((long long) boost::get<1>(*it)); return s + "}"; }
+static BigInt modp(BigInt x, const BigInt &p) { x %= p; if (x < 0) x += p; return x; }
+template<class T>
+static void vecfp_unit(vr::Runner &R, const char *tn, long p0, int ai) {
+    const int D = 3; const long V[6] = {0, 1, 2, (p0 - 1) / 2, p0 - 2, p0 - 1};
+    auto dense_of = [&](int idx, std::vector<long> &d) { d.assign(D, 0); for (int c = 0; c < D; ++c) { d[c] = V[idx % 6]; idx /= 6; } };
+    auto build = [&](const std::vector<long> &d) { parmcb::SpVecFP<T> v((T) p0); for (int c = 0; c < D; ++c) if (d[c]) { parmcb::SpVecFP<T> u((T) p0); u = (std::size_t) c; u *= (T) d[c]; v += u; } return v; };
+    auto check = [&](const std::string &cs, const parmcb::SpVecFP<T> &got, const std::vector<BigInt> &want, const char *what) {
+        std::vector<BigInt> g(D, 0); std::size_t prev = 0; bool first = true, canon = true;
+        for (auto it = got.begin(); it != got.end(); ++it) { std::size_t i = boost::get<0>(*it); BigInt val = BigInt((long long) boost::get<1>(*it)); if ((!first && i <= prev) || val < 1 || val >= p0 || i >= (std::size_t) D) canon = false; if (i < (std::size_t) D) g[i] = val; prev = i; first = false; }
+        if (!canon) { R.violation({"SpVecFP", "not-canonical", cs, std::string(what) + " = " + vecfp_str(got) + " is not in canonical form (values 1..p-1, increasing indices)"}); return false; }
+        for (int c = 0; c < D; ++c) if (g[c] != want[c]) { R.violation({"SpVecFP", "wrong-content", cs, std::string(what) + " = " + vecfp_str(got) + " differs from the dense computation at coordinate " + std::to_string(c)}); return false; }
+        return true;
+    };
+    std::vector<long> da, db; dense_of(ai, da);
+    for (int bi = 0; bi < 216; ++bi) {
+        dense_of(bi, db);
+        std::string cs = std::string("fn=spvecfp;T=") + tn + ";p=" + std::to_string(p0) + ";a=" + std::to_string(da[0]) + "." + std::to_string(da[1]) + "." + std::to_string(da[2]) + ";b=" + std::to_string(db[0]) + "." + std::to_string(db[1]) + "." + std::to_string(db[2]);
+        R.crumb_text(cs);
+        parmcb::SpVecFP<T> a = build(da), b = build(db);
+        std::vector<BigInt> wa(D), wsum(D); BigInt wdot = 0;
+        for (int c = 0; c < D; ++c) { wa[c] = da[c]; wsum[c] = modp(BigInt(da[c]) + db[c], p0); wdot += BigInt(da[c]) * db[c]; }
+        wdot = modp(wdot, p0);
+        bool ok = check(cs, a, wa, "a (built from unit vectors)");
+        if (ok) { parmcb::SpVecFP<T> s = a + b; ok = check(cs, s, wsum, "a + b"); }
+        if (ok) { parmcb::SpVecFP<T> s = a; s += b; ok = check(cs, s, wsum, "a += b"); }
+        if (ok) { BigInt d = modp(BigInt((long long) (a * b)), p0); if (d != wdot) { R.violation({"SpVecFP", "dot-product", cs, "a * b = " + std::to_string((long long) (a * b)) + ", dense computation gives " + wdot.str()}); ok = false; } }
+        if (ok && bi < 9) {
+            const long S[9] = {0, 1, 2, (p0 - 1) / 2, p0 - 2, p0 - 1, p0, p0 + 1, -1};
+            long sc = S[bi]; std::vector<BigInt> wsc(D); for (int c = 0; c < D; ++c) wsc[c] = modp(BigInt(da[c]) * sc, p0);
+            parmcb::SpVecFP<T> m = a * (T) sc; ok = check(cs + ";scalar=" + std::to_string(sc), m, wsc, "a * scalar");
+            if (ok) { parmcb::SpVecFP<T> m2 = a; m2 *= (T) sc; check(cs + ";scalar=" + std::to_string(sc), m2, wsc, "a *= scalar"); }
+        }
+        R.crumb_done();
+        R.count(C_EVAL, 4); R.count(C_NONTRIV, 4);
+    }
+}
+
 template<class T>
 static void dispatch_one(vr::Runner &R, const char *tn, std::map<std::string, std::string> &kv) {
-    if (kv["fn"] == "ext_gcd") gcd_case<T>(R, tn, atol(kv["a"].c_str()), atol(kv["b"].c_str()), true);
+    if (kv["fn"] == "spvecfp") {
+        long p0 = atol(kv["p"].c_str()); const long V[6] = {0, 1, 2, (p0 - 1) / 2, p0 - 2, p0 - 1};
+        auto parts = vr::split(kv["a"], '.'); int ai = 0, mul = 1;
+        for (auto &t : parts) { long v = atol(t.c_str()); int d = 0; for (int i = 0; i < 6; ++i) if (V[i] == v) d = i; ai += d * mul; mul *= 6; }
+        vecfp_unit<T>(R, tn, p0, ai);      // re-runs this a against every b
+    }
+    else if (kv["fn"] == "ext_gcd") gcd_case<T>(R, tn, atol(kv["a"].c_str()), atol(kv["b"].c_str()), true);
     else if (kv["fn"] == "get_mult_inverse") inv_case<T>(R, tn, atol(kv["a"].c_str()), atol(kv["p"].c_str()), true);
     else prime_case<T>(R, tn, atol(kv["p"].c_str()), true);
 }
@@ -103,6 +154,7 @@ int main(int argc, char **argv) {
         for (long a = -pl.gcd_box; a <= pl.gcd_box; ++a) units.push_back({t, 0, a});
         for (long p = 2; p <= pl.inv_pmax; ++p) units.push_back({t, 1, p});
         for (long lo = 2; lo <= pl.prime_max; lo += 2000) units.push_back({t, 2, lo});
+        for (long ai = 0; ai < 216; ++ai) units.push_back({t, 3, ai});
     }
     uint64_t seed = (uint64_t) A.geti("seed", 0);
     static const char *tn[] = {"int", "long", "cpp_int"};
@@ -112,6 +164,7 @@ int main(int argc, char **argv) {
                 if (u.type == 0) gcd_case<int>(R, tn[0], u.x, b); else if (u.type == 1) gcd_case<long>(R, tn[1], u.x, b); else gcd_case<BigInt>(R, tn[2], u.x, b); } }
         else if (u.fn == 1) { for (long a = -2 * u.x; a <= 2 * u.x; ++a) {
                 if (u.type == 0) inv_case<int>(R, tn[0], a, u.x); else if (u.type == 1) inv_case<long>(R, tn[1], a, u.x); else inv_case<BigInt>(R, tn[2], a, u.x); } }
+        else if (u.fn == 3) { if (u.type == 0) vecfp_unit<int>(R, tn[0], 46337, (int) u.x); else if (u.type == 1) vecfp_unit<long>(R, tn[1], 2147483647L, (int) u.x); else vecfp_unit<BigInt>(R, tn[2], 2147483647L, (int) u.x); }
         else { for (long p = u.x; p < u.x + 2000 && p <= pl.prime_max; ++p) {
                 if (u.type == 0) prime_case<int>(R, tn[0], p); else if (u.type == 1) prime_case<long>(R, tn[1], p); else prime_case<BigInt>(R, tn[2], p); } }
     };
